@@ -2,7 +2,8 @@
 import os
 
 from . import core
-from .rules import stdio, cert, mark, exact, optstore
+from .rules import stdio, cert, mark, exact, optstore, inval
+from .effects import Effects
 
 FIX = os.path.join(os.path.dirname(os.path.abspath(__file__)), "fixtures")
 
@@ -41,7 +42,28 @@ def fx_cert():
     return out
 
 
+def fx_inval():
+    prog = core.build_fixture([os.path.join(FIX, "inval.c")])
+    inval.ALL_NONSTATIC_PUBLIC = True
+    try:
+        E = Effects(prog)
+        out = []
+        r = inval.run_inval(prog, E)
+        got = sorted(v.func for v in r.violations)
+        out.append(("R-INVAL fires exactly on {mpq_QSfix_early, mpq_QSfix_none}", got == ["mpq_QSfix_early", "mpq_QSfix_none"], str(got)))
+        r = inval.run_fok(prog, E)
+        got = sorted(v.func for v in r.violations)
+        out.append(("R-FOK fires exactly on {mpq_QSfix_coef}", got == ["mpq_QSfix_coef"], str(got)))
+        r = inval.run_gate(prog, E)
+        got = sorted(v.func for v in r.violations)
+        out.append(("R-GATE fires exactly on {mpq_QSfix_get_bad}", got == ["mpq_QSfix_get_bad"], str(got)))
+    finally:
+        inval.ALL_NONSTATIC_PUBLIC = False
+    return out
+
+
 FIXTURES = {
+    "C05": [fx_inval],
     "C01": [fx_cert],
     "C02": [fx_cert],
     "C20": [fx_stdio],
@@ -92,6 +114,22 @@ def c02_rules():
     ]
 
 
+def c05_rules():
+    cache = {}
+
+    def eff(prog):
+        if id(prog) not in cache:
+            cache[id(prog)] = Effects(prog)
+        return cache[id(prog)]
+    return [
+        lambda prog, tier: inval.run_inval(prog, eff(prog)),
+        lambda prog, tier: inval.run_fok(prog, eff(prog)),
+        lambda prog, tier: inval.run_gate(prog, eff(prog)),
+        lambda prog, tier: inval.run_invalfn(prog),
+        lambda prog, tier: inval.run_coupd(prog, eff(prog)),
+    ]
+
+
 CERT_NOTE = ("trusted: clang 14 front end and export; the typestate abstraction (value classes of rval/__EGrval__ temporaries, "
              "*status in {OPT, INF, OTHER}, certificate state); loop counters untracked (adds paths only); allocation-failure "
              "edges excluded (frozen table in sa/rules/mark.py); calls through status pointer havoc the status")
@@ -125,6 +163,28 @@ PROPS = {
                       "on the pinned tree (feasible LP reported INFEASIBLE after ladder exhaustion; fixed in /repo b42ef0a).",
         "level_note": CERT_NOTE,
         "not_decided": "that the inequality on infinite bounds inside the test is the right one; that ILLsimplex_infcertificate produces a ray",
+    },
+    "C05": {
+        "rules": c05_rules(),
+        "technique": "interprocedural write-effect summaries (access paths, field-sensitive, k-limited) + per-function must-follow "
+                     "path-sensitive dataflow on clang::CFG with return-code correlation; guard-dominance for accessors",
+        "explanation": "Decides the 'no stale solution is served' clause structurally: the set of public functions that may write "
+                       "solution-relevant LP data of their problem argument is COMPUTED from effect summaries (31 today) and each must pass "
+                       "free_cache(p) on every path from the write to a success return (R-INVAL; documented waiver for QSdelete_rows); "
+                       "every function that may write the matrix/dimensions/maps must reset or hand over factorok, every basis installer "
+                       "must reset it (R-FOK); every accessor using p->cache is gated on its presence or on qstatus != MODIFIED (R-GATE); "
+                       "free_cache itself always stores QS_LP_MODIFIED and nulls the cache (R-INVALFN); a stored range is co-updated "
+                       "with the logical column's bound (R-COUPD).",
+        "level_text": "All-paths structural guarantee for cache/factorization invalidation over every public edit entry point, including "
+                      "ones added later (the mutator set is computed, not listed). Found four genuine defects on the pinned tree "
+                      "(QSchange_coef, QSchange_senses, QSread_and_load_basis: stale factorization; ILLlib_chgrange: range not applied), "
+                      "all replayed and fixed in /repo. Does not decide that a re-solve equals a fresh solve numerically.",
+        "level_note": "trusted: effect summaries (flow-insensitive local pointer origins, field paths limited to 8 fields; writes through "
+                      "external functions taken from their prototypes' non-const pointer parameters); LP-data criterion = first ILLlpdata "
+                      "field on the composed access path; rval/temporary value classes; frozen waiver for QSdelete_rows(cache_ok) and "
+                      "exemptions QSfree_prob, QSopt_strongbranch",
+        "not_decided": "that a warm re-solve equals a from-scratch solve (numerical); decisions taken inside ILLlib_delrows about "
+                       "which deletions keep the basis/cache valid; history-dependent lifetime of pricing-norm arrays",
     },
     "C20": {
         "rules": [lambda prog, tier: stdio.run(prog)],
